@@ -438,7 +438,7 @@ Fixpoint eval (t : term) : eres :=      (* t: substitution already applied *)
   | Cmp f [a] =>
       if name_eqb f n_minus then match eval a with EVal x => EVal (- x) | e => e end
       else if name_eqb f n_plus then eval a
-      else EErr (type_error n_evaluable (pred_ind f 1))
+      else match eval a with EVal _ => EErr (type_error n_evaluable (pred_ind f 1)) | e => e end
   | Cmp f [a; b] =>
       let bin (op : Z -> Z -> eres) :=
         match eval a with
@@ -450,8 +450,15 @@ Fixpoint eval (t : term) : eres :=      (* t: substitution already applied *)
       else if name_eqb f n_times then bin (fun x y => EVal (x * y))
       else if name_eqb f n_idiv then
         bin (fun x y => if Z.eqb y 0 then EErr (Cmp n_evaluation_error [Atom n_zero_divisor]) else EVal (Z.quot x y))
-      else EErr (type_error n_evaluable (pred_ind f 2))
-  | Cmp f args => EErr (type_error n_evaluable (pred_ind f (List.length args)))
+      else bin (fun _ _ => EErr (type_error n_evaluable (pred_ind f 2)))
+  | Cmp f args =>
+      (* not an evaluable functor: the arguments are evaluated first (their errors win), as the implementation does;
+         ISO does not fix the order in which the errors of an expression are detected *)
+      (fix go (l : list term) : eres :=
+         match l with
+         | [] => EErr (type_error n_evaluable (pred_ind f (List.length args)))
+         | x :: r => match eval x with EVal _ => go r | e => e end
+         end) args
   | _ => EStuck
   end%Z.
 
@@ -557,9 +564,23 @@ Definition add_args (g : term) (extra : list term) : term + term :=
   | _ => inr (type_error n_callable_t g)
   end.
 
+(* ISO 7.6.2: a term can be converted to a body iff the arguments of its control constructs , ; -> are
+   variables or callable, recursively *)
+Fixpoint body_ok (t : term) : bool :=
+  match t with
+  | Var _ | Atom _ => true
+  | Cmp f [a; b] =>
+      if name_eqb f n_comma || name_eqb f n_semi || name_eqb f n_arrow then body_ok a && body_ok b else true
+  | Cmp _ _ => true
+  | _ => false
+  end.
+
+(* call/N: the goal is instantiated, extended by the extra arguments, checked, and run with a fresh cut barrier *)
 Definition do_call (ex : exec_t) (g : term) (extra : list term) (s : bst) (k : kont) : outcome :=
   match add_args (apply (sub s) g) extra with
-  | inl goal => let id := ctr s in uncut id (ex goal id (bump s) k)
+  | inl goal =>
+      if body_ok goal then let id := ctr s in uncut id (ex goal id (bump s) k)
+      else throw_out (mkerr (type_error n_callable_t goal))
   | inr formal => throw_out (mkerr formal)
   end.
 
@@ -655,6 +676,138 @@ Fixpoint det_syn (fuel : nat) (g : term) : bool :=
            end
   end.
 
+(* ------------------------------------------------------------------ the constructs, one definition each *)
+Definition commit_k (id : N) : kont := fun s' => ([], SCommit id s').
+
+(* (C -> T ; E): C is run with its own cut barrier and a continuation that commits to its first solution *)
+Definition do_ite (ex : exec_t) (c t e : term) (cb : N) (s : bst) (k : kont) : outcome :=
+  let id := ctr s in
+  let s1 := bump s in
+  let o := ex c id s1 (commit_k id) in
+  match snd o with
+  | SCommit id' s' => if N.eqb id' id then pre (fst o) (ex t cb s' k) else o
+  | SNorm => pre (fst o) (ex e cb s1 k)
+  | SCut id' => if N.eqb id' id then pre (fst o) (ex e cb s1 k) else o
+  | _ => o
+  end.
+
+Definition do_naf (ex : exec_t) (g1 : term) (s : bst) (k : kont) : outcome :=
+  let id := ctr s in
+  let s1 := bump s in
+  let o := do_call ex g1 [] s1 (commit_k id) in
+  match snd o with
+  | SCommit id' _ => if N.eqb id' id then (fst o, SNorm) else o
+  | SNorm => pre (fst o) (k s1)
+  | _ => o
+  end.
+
+Definition do_user (ex : exec_t) (prog : program) (f : list N) (args : list term) (s : bst) (k : kont) : outcome :=
+  match clauses_of prog f (List.length args) with
+  | [] => throw_out (mkerr (Cmp n_existence_error [Atom n_procedure; pred_ind f (List.length args)]))
+  | cls => try_clauses ex cls args (ctr s) (bump s) k
+  end.
+
+Definition do_det (d : detk) (s : bst) (k : kont) : outcome :=
+  match run_det d s with
+  | DSucc s' => k s'
+  | DFail => ([], SNorm)
+  | DExc b => throw_out b
+  | DStuck r => ([], SAbort r)
+  end.
+
+Definition do_throw (b : term) (s : bst) : outcome :=
+  match apply (sub s) b with
+  | Var _ => throw_out (mkerr inst_error)
+  | b' => throw_out b'
+  end.
+
+(* catch/3: the goal's continuation is tagged so that exceptions raised after the goal has exited are not handled here;
+   the ball is a fresh copy; the substitution of the recovery is the one at the call of catch/3 (all later bindings undone) *)
+Definition do_catch (ex : exec_t) (g1 c r : term) (s : bst) (k : kont) : outcome :=
+  let id := ctr s in
+  let s1 := bump s in
+  let o := do_call ex g1 [] s1 (fun s' => tag id (k s')) in
+  match snd o with
+  | SExc b None =>
+      let c0 := ctr s1 in
+      match unify ufuel (sub s1) [(c, shift c0 b)] with
+      | UOk s' => pre (fst o) (do_call ex r [] (mkst s' (c0 + nvars b)) k)
+      | UFail => o
+      | UAbort a => (fst o, SAbort a)
+      end
+  | SExc b (Some id') => if N.eqb id' id then (fst o, SExc b None) else o
+  | _ => o
+  end.
+
+(* the ordered instances of `t` for the solutions of call(g1), plus the other events (log entries) of that run *)
+Definition collect (ex : exec_t) (t g1 : term) (s : bst) : list term * list event * signal :=
+  let o := do_call ex g1 [] s (fun s' => ([EAns (apply (sub s') t)], SNorm)) in
+  let (anss, rest) := split_events (fst o) in
+  (anss, rest, snd o).
+
+(* findall/3 (tl = [] atom) and findall/4 *)
+Definition do_findall (ex : exec_t) (t g1 l tl : term) (s : bst) (k : kont) : outcome :=
+  if negb (can_be_list (apply (sub s) l)) then throw_out (mkerr (type_error n_list (apply (sub s) l))) else
+  if negb (can_be_list (apply (sub s) tl)) then throw_out (mkerr (type_error n_list (apply (sub s) tl))) else
+  match collect ex t g1 s with
+  | (anss, rest, SNorm) => let (cs, c') := copies (ctr s) anss in unify_k (mkst (sub s) c') l (tlist_tail cs tl) rest k
+  | (_, rest, x) => (rest, x)
+  end.
+
+(* bagof/3 (set = false) and setof/3: free-variable witness per ISO 7.1.1.4; solutions sorted by witness (keysort, stable)
+   resp. sorted and deduplicated as pairs, then grouped by variant witnesses; one alternative per group *)
+Definition do_bagof (ex : exec_t) (set : bool) (t g1 l : term) (s : bst) (k : kont) : outcome :=
+  if negb (can_be_list (apply (sub s) l)) then throw_out (mkerr (type_error n_list (apply (sub s) l))) else
+  let t' := apply (sub s) t in
+  let g' := apply (sub s) g1 in
+  let (g0, evars) := strip_carets (term_size g') g' [] in
+  let wvars := diffN (diffN (tvars g' []) (tvars t' [])) evars in
+  let wt := Cmp n_w (map Var wvars) in
+  match collect ex (Cmp n_minus [wt; t']) g0 s with
+  | (anss, rest, SNorm) =>
+      let (cs, c') := copies (ctr s) anss in
+      let sorted := if set then sort_dedup cs else sort_by pair_key cs in
+      pre rest (try_groups (groups (List.length sorted) sorted) wt l (mkst (sub s) c') k)
+  | (_, rest, x) => (rest, x)
+  end.
+
+(* once(Cleanup), outcome ignored (except an abort of the run) *)
+Definition run_cleanup (ex : exec_t) (c : term) (ev : list event) (sc : bst) (sg : signal) : outcome :=
+  let oc := do_call ex c [] (bump sc) (commit_k (ctr sc)) in
+  match snd oc with
+  | SAbort r => (ev ++ fst oc, SAbort r)
+  | _ => (ev ++ fst oc, sg)
+  end.
+
+(* setup_call_cleanup/3, restricted model: Setup is run once; if Goal is syntactically deterministic the cleanup runs right
+   after its exit / failure / exception; otherwise it runs when the goal's frame is finally left (the exact moment between these
+   for non-deterministic goals is not modelled). *)
+Definition do_scc (ex : exec_t) (st g1 c : term) (s : bst) (k : kont) : outcome :=
+  let id := ctr s in
+  let o := do_call ex st [] (bump s) (commit_k id) in
+  match snd o with
+  | SCommit id' s2 =>
+      if negb (N.eqb id' id) then o else
+      if det_syn (term_size g1) g1 then
+        let id2 := ctr s2 in
+        let og := do_call ex g1 [] (bump s2) (commit_k id2) in
+        match snd og with
+        | SCommit id3 s3 =>
+            if negb (N.eqb id3 id2) then pre (fst o) og else
+            let oc := run_cleanup ex c (fst o ++ fst og) s3 SNorm in
+            match snd oc with SNorm => pre (fst oc) (k s3) | _ => oc end
+        | SAbort r => pre (fst o) og
+        | sg => run_cleanup ex c (fst o ++ fst og) s2 sg
+        end
+      else
+        let og := do_call ex g1 [] s2 k in
+        match snd og with
+        | SAbort r => pre (fst o) og
+        | sg => run_cleanup ex c (fst o ++ fst og) s2 sg
+        end
+  | _ => o
+  end.
+
 (* ------------------------------------------------------------------ one step of the interpreter *)
 Definition exec_step (ex : exec_t) (prog : program) (g : term) (cb : N) (s : bst) (k : kont) : outcome :=
   match classify g with
@@ -663,131 +816,19 @@ Definition exec_step (ex : exec_t) (prog : program) (g : term) (cb : N) (s : bst
   | GCut => let o := k s in (fst o, match snd o with SNorm => SCut cb | x => x end)
   | GConj a b => ex a cb s (fun s' => ex b cb s' k)
   | GDisj a b => seq (ex a cb s k) (fun _ => ex b cb s k)
-  | GIte c t e =>
-      let id := ctr s in
-      let s1 := bump s in
-      let o := ex c id s1 (fun s' => ([], SCommit id s')) in
-      match snd o with
-      | SCommit id' s' => if N.eqb id' id then pre (fst o) (ex t cb s' k) else o
-      | SNorm => pre (fst o) (ex e cb s1 k)
-      | SCut id' => if N.eqb id' id then pre (fst o) (ex e cb s1 k) else o
-      | _ => o
-      end
-  | GNaf g1 =>
-      let id := ctr s in
-      let s1 := bump s in
-      let o := ex g1 id s1 (fun s' => ([], SCommit id s')) in
-      match snd o with
-      | SCommit id' _ => if N.eqb id' id then (fst o, SNorm) else o
-      | SNorm => pre (fst o) (k s1)
-      | SCut id' => if N.eqb id' id then pre (fst o) (k s1) else o
-      | _ => o
-      end
+  | GIte c t e => do_ite ex c t e cb s k
+  | GNaf g1 => do_naf ex g1 s k
   | GCall g1 extra => do_call ex g1 extra s k
-  | GUser f args =>
-      match clauses_of prog f (List.length args) with
-      | [] => throw_out (mkerr (Cmp n_existence_error [Atom n_procedure; pred_ind f (List.length args)]))
-      | cls => try_clauses ex cls args (ctr s) (bump s) k
-      end
-  | GDet d =>
-      match run_det d s with
-      | DSucc s' => k s'
-      | DFail => ([], SNorm)
-      | DExc b => throw_out b
-      | DStuck r => ([], SAbort r)
-      end
+  | GUser f args => do_user ex prog f args s k
+  | GDet d => do_det d s k
   | GLog t => pre [ELog (apply (sub s) t)] (k s)
-  | GThrow b =>
-      match apply (sub s) b with
-      | Var _ => throw_out (mkerr inst_error)
-      | b' => throw_out b'
-      end
-  | GCatch g1 c r =>
-      let id := ctr s in
-      let s1 := bump s in
-      let o := do_call ex g1 [] s1 (fun s' => tag id (k s')) in
-      match snd o with
-      | SExc b None =>
-          let c0 := ctr s1 in
-          match unify ufuel (sub s1) [(c, shift c0 b)] with
-          | UOk s' => pre (fst o) (do_call ex r [] (mkst s' (c0 + nvars b)) k)
-          | UFail => o
-          | UAbort a => (fst o, SAbort a)
-          end
-      | SExc b (Some id') => if N.eqb id' id then (fst o, SExc b None) else o
-      | _ => o
-      end
-  | GFindall t g1 l =>
-      if negb (can_be_list (apply (sub s) l)) then throw_out (mkerr (type_error n_list (apply (sub s) l))) else
-      let o := do_call ex g1 [] s (fun s' => ([EAns (apply (sub s') t)], SNorm)) in
-      let (anss, rest) := split_events (fst o) in
-      match snd o with
-      | SNorm => let (cs, c') := copies (ctr s) anss in unify_k (mkst (sub s) c') l (tlist cs) rest k
-      | x => (rest, x)
-      end
-  | GFindall4 t g1 l tl =>
-      if negb (can_be_list (apply (sub s) l)) then throw_out (mkerr (type_error n_list (apply (sub s) l))) else
-      if negb (can_be_list (apply (sub s) tl)) then throw_out (mkerr (type_error n_list (apply (sub s) tl))) else
-      let o := do_call ex g1 [] s (fun s' => ([EAns (apply (sub s') t)], SNorm)) in
-      let (anss, rest) := split_events (fst o) in
-      match snd o with
-      | SNorm => let (cs, c') := copies (ctr s) anss in unify_k (mkst (sub s) c') l (tlist_tail cs tl) rest k
-      | x => (rest, x)
-      end
-  | GBagof set t g1 l =>
-      if negb (can_be_list (apply (sub s) l)) then throw_out (mkerr (type_error n_list (apply (sub s) l))) else
-      let t' := apply (sub s) t in
-      let g' := apply (sub s) g1 in
-      let (g0, evars) := strip_carets (term_size g') g' [] in
-      let wvars := diffN (diffN (tvars g' []) (tvars t' [])) evars in
-      let wt := Cmp n_w (map Var wvars) in
-      let pr := Cmp n_minus [wt; t'] in
-      let o := do_call ex g0 [] s (fun s' => ([EAns (apply (sub s') pr)], SNorm)) in
-      let (anss, rest) := split_events (fst o) in
-      match snd o with
-      | SNorm =>
-          let (cs, c') := copies (ctr s) anss in
-          let sorted := if set then sort_dedup cs else sort_by pair_key cs in
-          pre rest (try_groups (groups (List.length sorted) sorted) wt l (mkst (sub s) c') k)
-      | x => (rest, x)
-      end
+  | GThrow b => do_throw b s
+  | GCatch g1 c r => do_catch ex g1 c r s k
+  | GFindall t g1 l => do_findall ex t g1 l tnil s k
+  | GFindall4 t g1 l tl => do_findall ex t g1 l tl s k
+  | GBagof set t g1 l => do_bagof ex set t g1 l s k
   | GForall c a => ex (Cmp n_naf [Cmp n_comma [c; Cmp n_naf [a]]]) cb s k
-  | GScc st g1 c =>
-      (* restricted model: Setup is run once; if Goal is syntactically deterministic the cleanup runs right after
-         its exit / failure / exception; otherwise it runs when the goal's frame is finally left (the exact moment
-         between these for non-deterministic goals is not modelled).  Cleanup is once(Cleanup) with its outcome ignored. *)
-      let id := ctr s in
-      let o := do_call ex st [] (bump s) (fun s' => ([], SCommit id s')) in
-      match snd o with
-      | SCommit id' s2 =>
-          if negb (N.eqb id' id) then o else
-          let cleanup (sc : bst) : outcome :=
-            let idc := ctr sc in do_call ex c [] (bump sc) (fun s' => ([], SCommit idc s')) in
-          let fin (ev : list event) (sc : bst) (sg : signal) : outcome :=
-            let oc := cleanup sc in
-            match snd oc with
-            | SAbort r => (ev ++ fst oc, SAbort r)
-            | _ => (ev ++ fst oc, sg)
-            end in
-          if det_syn (term_size g1) g1 then
-            let id2 := ctr s2 in
-            let og := do_call ex g1 [] (bump s2) (fun s' => ([], SCommit id2 s')) in
-            match snd og with
-            | SCommit id3 s3 =>
-                if negb (N.eqb id3 id2) then pre (fst o) og else
-                let oc := fin (fst o ++ fst og) s3 SNorm in
-                match snd oc with SNorm => pre (fst oc) (k s3) | _ => oc end
-            | SAbort r => pre (fst o) og
-            | sg => fin (fst o ++ fst og) s2 sg
-            end
-          else
-            let og := do_call ex g1 [] s2 k in
-            match snd og with
-            | SAbort r => pre (fst o) og
-            | sg => fin (fst o ++ fst og) s2 sg
-            end
-      | _ => o
-      end
+  | GScc st g1 c => do_scc ex st g1 c s k
   | GBad t => throw_out (mkerr (type_error n_callable_t t))
   end.
 
